@@ -410,3 +410,19 @@ Proof.
 Qed.
 
 End Thm.
+
+(* Without the order hypothesis the arg-min statement fails: with a NaN cost (None) in first
+   position sorted(...)[0] keeps the NaN candidate although a finite-cost candidate exists.
+   (Two elements: CPython's count_run/binary insertion and the model's insertion agree.) *)
+Theorem choose_nan_refuted :
+  exists (cost : list Z -> option Z) (l : list (list Z)) (p q : list Z),
+    choose Z (option Z) fltb cost l = Ok p /\ In q l /\ cost p = None /\ cost q = Some 0%Z.
+Proof.
+  exists (fun p => match p with [1%Z] => None | _ => Some 0%Z end), [[1%Z]; [2%Z]], [1%Z], [2%Z].
+  repeat split; simpl; auto.
+Qed.
+
+Lemma fltb_not_strict_weak : ~ strict_weak (option Z) fltb.
+Proof.
+  intros (_ & _ & Hn). specialize (Hn (Some 0%Z) None (Some 1%Z) eq_refl eq_refl). discriminate.
+Qed.
